@@ -592,7 +592,12 @@ class ConstructedPayloadDecoderBase(AbstractConstructedPayloadDecoder):
             self, substrate, tagSet=None, decodeFun=None,
             length=None, **options):
 
-        asn1Object = None
+        # nothing inside: an empty SEQUENCE OF / SET OF value
+        asn1Object = self.protoSequenceComponent.clone(
+            tagSet=tag.TagSet(
+                self.protoSequenceComponent.tagSet.baseTag, *tagSet.superTags)
+        )
+        asn1Object.clear()
 
         components = []
         componentTypes = set()
